@@ -6,7 +6,9 @@ import (
 	"go/constant"
 	"go/token"
 	"go/types"
+	"path/filepath"
 	"sort"
+	"strings"
 
 	"golang.org/x/tools/go/ast/astutil"
 	"golang.org/x/tools/go/ssa"
@@ -543,6 +545,38 @@ func runRuneWhole(p *Program, r *RuleResult) {
 						bad = fmt.Sprintf("the rune %s is converted to %s (%d bits) with no upper bound established: code points that differ only above bit %d become indistinguishable", displayKey(x.X), x.Type(), bits, bits)
 						pos = p.instrPos(x)
 					}
+				case *ssa.IndexAddr:
+					// a table indexed by the character: the index must be known to be below
+					// the table's length on every path
+					var length int64 = -1
+					switch t := x.X.Type().Underlying().(type) {
+					case *types.Pointer:
+						if arr, ok := t.Elem().Underlying().(*types.Array); ok {
+							length = arr.Len()
+						}
+					}
+					if length < 0 {
+						continue
+					}
+					if _, isC := x.Index.(*ssa.Const); isC {
+						continue
+					}
+					idx := x.Index
+					if bits := narrowIntBits(idx.Type()); bits > 0 && int64(1)<<uint(bits) <= length {
+						continue // bounded by its type
+					}
+					src := idx
+					if cv, ok := idx.(*ssa.Convert); ok {
+						src = cv.X
+					}
+					if !isRuneKind(src.Type()) && !isRuneKind(idx.Type()) {
+						continue
+					}
+					if view.boundedBelow(b, src, length) || view.boundedBelow(b, idx, length) {
+						continue
+					}
+					bad = fmt.Sprintf("the table of %d entries is indexed with the character %s, which is not known to be below %d on every path to this access: a character beyond the table makes the scanner panic", length, displayKey(src), length)
+					pos = p.instrPos(x)
 				case *ssa.BinOp:
 					switch x.Op {
 					case token.AND, token.REM, token.SHR, token.AND_NOT:
@@ -636,4 +670,84 @@ func runKeywordExact(p *Program, r *RuleResult) {
 		}
 	}
 	r.count("keyword comparisons", n)
+}
+
+// R-SCAN-NO-RECURSION (C11): the scanner's stack does not grow with the input.
+func init() {
+	register(&Rule{Name: "R-SCAN-NO-RECURSION", Min: 5,
+		Doc: "among the hand-written functions of the parser package that take part in scanning (those that reach the rune reader), none calls itself, directly or through others: a scan function that re-enters itself after skipping a comment uses one stack frame per consecutive comment, and a few million comment lines end the process with a fatal stack overflow (which cannot be recovered)",
+		Run: runScanNoRecursion})
+}
+
+func runScanNoRecursion(p *Program, r *RuleResult) {
+	ri := findScannerReader(p)
+	if ri == nil || ri.Read == nil {
+		r.add(parserPkg, "rune-reader", Undecided, "", "the wrapper of bufio.Reader.ReadRune was not found")
+		return
+	}
+	// hand-written parser functions and their static call edges within the package
+	var fns []*ssa.Function
+	edges := map[*ssa.Function][]*ssa.Function{}
+	for _, fn := range p.SrcFuncs {
+		pk := fn.Pkg
+		if pk == nil && fn.Parent() != nil {
+			pk = fn.Parent().Pkg
+		}
+		if pk == nil || pk.Pkg.Path() != parserPkg || fn.Blocks == nil {
+			continue
+		}
+		if strings.HasPrefix(filepath.Base(p.Fset.Position(fn.Pos()).Filename), "yacc") {
+			continue
+		}
+		fns = append(fns, fn)
+		for _, c := range p.callsIn(fn) {
+			if sc := c.Common().StaticCallee(); sc != nil && sc.Blocks != nil {
+				edges[fn] = append(edges[fn], sc)
+			}
+		}
+		for _, an := range fn.AnonFuncs {
+			edges[fn] = append(edges[fn], an)
+		}
+	}
+	reachMemo := map[*ssa.Function]map[*ssa.Function]bool{}
+	reachOf := func(fn *ssa.Function) map[*ssa.Function]bool {
+		if m, ok := reachMemo[fn]; ok {
+			return m
+		}
+		m := map[*ssa.Function]bool{}
+		var walk func(f *ssa.Function)
+		walk = func(f *ssa.Function) {
+			for _, g := range edges[f] {
+				if !m[g] {
+					m[g] = true
+					walk(g)
+				}
+			}
+		}
+		walk(fn)
+		reachMemo[fn] = m
+		return m
+	}
+	sort.Slice(fns, func(i, j int) bool { return fnName(fns[i]) < fnName(fns[j]) })
+	n := 0
+	for _, fn := range fns {
+		m := reachOf(fn)
+		if !m[ri.Read] && fn != ri.Read {
+			continue // does not take part in scanning
+		}
+		n++
+		if m[fn] {
+			// a direct or indirect call of itself: where?
+			where := ""
+			for _, c := range p.callsIn(fn) {
+				if sc := c.Common().StaticCallee(); sc != nil && (sc == fn || reachOf(sc)[fn]) {
+					where = p.instrPos(c)
+				}
+			}
+			r.add(fnName(fn), "no-self-call", Violated, where, "this scan function can call itself (at "+where+"): the depth of the recursion follows the input (one frame per consecutive comment or token), so a long enough text overflows the stack and kills the process")
+		} else {
+			r.add(fnName(fn), "no-self-call", Holds, p.pos(fn.Pos()), "")
+		}
+	}
+	r.count("scan functions", n)
 }
